@@ -11,6 +11,11 @@ class Unsupported(Exception):
     """the engine does not model this construct: obligations of the function become *undecided*, never a verdict"""
 
 
+class OpacityViolation(Unsupported):
+    """the code does arithmetic / numeric ordering on an ITEM instead of binner.valueof(item): with names unrelated to the values
+    (dict input, names + valueof) this raises TypeError or silently computes with the names -- an obligation failure of C07"""
+
+
 class PathEnd(Exception):
     """the current path ends here (cut at a loop back-edge, or infeasible)"""
 
